@@ -72,7 +72,7 @@ def overwrite_factory(ns):
                     if is_ret(w2) and isinstance(cur2, (SBytes, bytes)) and isinstance(cur, (SBytes, bytes)):
                         obs.append(oblige(eng, 'writing the loaded value again reproduces the same bytes (fixpoint)', z3.Not(bytes_eq(it, cur, cur2)), mk))
                     # ---- the file is replaced from outside (os.replace of a temporary file, another process): the next load follows the file
-                    fs.files['md.json'] = canon_of(it, v1)
+                    fs.replace_external('md.json', canon_of(it, v1))
                     l3 = run_call(it, C.load_metadata_from_file, ['md.json'])
                     if not is_ret(l3):
                         structural.append('loading a file that was replaced from outside succeeds')
@@ -123,7 +123,7 @@ def rootfile_factory(ns):
             mk = lambda mm: dict(scenario='rootfile', va=conc(mm, va), vb=conc(mm, vb))
             obs = []
             l1 = run_call(it, C.load_metadata_from_file, ['root.json'])
-            fs.files['root.json'] = canon_of(it, d2)          # replaced from outside (os.replace of a temporary file, another process)
+            fs.replace_external('root.json', canon_of(it, d2))          # replaced from outside (os.replace of a temporary file, another process)
             l2 = run_call(it, C.load_metadata_from_file, ['root.json'])
             if not is_ret(l1) or not is_ret(l2):
                 obs.append(oblige(eng, 'loading a well-formed root file succeeds', True, mk))
